@@ -5154,10 +5154,12 @@ func (t *Terminal) Loop() error {
 
 		var event tui.Event
 		actions := []*action{}
+		fromEvent := false
 		select {
 		case event = <-t.keyChan:
 			needBarrier = true
 		case event = <-t.eventChan:
+			fromEvent = true
 			// Drain channel to process all queued events at once without rendering
 			// the intermediate states
 		Drain:
@@ -6467,9 +6469,11 @@ func (t *Terminal) Loop() error {
 			return true
 		}
 
-		if t.jumping == jumpDisabled || len(actions) > 0 {
-			// Break out of jump mode if any action is submitted to the server
-			if t.jumping != jumpDisabled {
+		if t.jumping == jumpDisabled || len(actions) > 0 || fromEvent {
+			// Break out of jump mode if any action is submitted to the server.
+			// An event such as load, result or focus is not an answer to the jump
+			// prompt: its actions are run and the prompt stays
+			if t.jumping != jumpDisabled && !fromEvent {
 				t.jumping = jumpDisabled
 				if acts, prs := t.keymap[tui.JumpCancel.AsEvent()]; prs && !doActions(acts) {
 					continue
